@@ -6,7 +6,7 @@ open DoitModel.Report
 /-- the invariant: every node's task is justified on the current trace, every list of a node holds what the closure
     reaches, the tasks still to be popped are justified; a task chosen for execution satisfies `ranFirst` -/
 structure LM (inp : RunInput) (nT : Nat) (s : Sys) : Prop where
-  sj : SJ inp (Just inp nT (trace inp s)) (fun p => (stOf s p).good = true) s
+  sj : SJ inp (Just inp nT (trace inp s)) (Ds inp s) s
   rf : ∀ a, stOf s a = .run → ranFirst inp nT (trace inp s) a = true
 
 theorem just_bnd {inp : RunInput} {n : Nat} (hb : BoundedP inp n) {tr : List Ev} {d : Name}
@@ -16,14 +16,16 @@ theorem just_bnd {inp : RunInput} {n : Nat} (hb : BoundedP inp n) {tr : List Ev}
   | step _ hd ih => exact succs_bnd hb tr ih _ hd
 
 theorem crel_calcsAt {inp : RunInput} {n : Nat} (hb : BoundedP inp n) {s : Sys} (c : Ctx inp s) {t x : Name}
-    (ht : t < n) (h : CRel inp (fun p => (stOf s p).good = true) t x) :
-    x ∈ calcsAt inp (trace inp s) n (inp.calcDep t) := by
+    (ht : t < n) (h : CRel inp (Ds inp s) t x) :
+    x ∈ calcsAtF inp (trace inp s) n (inp.calcDep t) := by
   induction h with
-  | base hc => exact calcsAt_ext inp _ n _ _ hc
-  | res _ hg hx ih => exact calcsAt_closed hb _ (hb.cd t ht) ih (c.good_finished hg) hx
+  | base hc => exact calcsAtF_ext inp _ n _ _ hc
+  | res _ hg hx ih =>
+    exact calcsAtF_closed hb _ (hb.cd t ht) ih
+      ((c.ds_resAt hb (calcsAtF_bnd hb _ n (hb.cd t ht) _ ih) hg).1 _ hx)
 
 theorem jclosed {inp : RunInput} {n : Nat} (hb : BoundedP inp n) {s : Sys} (c : Ctx inp s) :
-    JClosed inp (Just inp n (trace inp s)) (fun p => (stOf s p).good = true) := by
+    JClosed inp (Just inp n (trace inp s)) (Ds inp s) := by
   constructor
   · intro t x ht hx
     refine .step ht ?_
@@ -36,13 +38,17 @@ theorem jclosed {inp : RunInput} {n : Nat} (hb : BoundedP inp n) {s : Sys} (c : 
     cases hx with
     | task h => exact Or.inl (Or.inl (Or.inl h))
     | resT hp hg h =>
-      exact Or.inl (Or.inr ⟨_, ⟨crel_calcsAt hb c (just_bnd hb ht) hp, c.good_finished hg⟩, Or.inl h⟩)
+      have hm := crel_calcsAt hb c (just_bnd hb ht) hp
+      have hpb := calcsAtF_bnd hb _ n (hb.cd t (just_bnd hb ht)) _ hm
+      exact Or.inl (Or.inr ⟨_, hm, Or.inl ((c.ds_resAt hb hpb hg).2.1 _ h)⟩)
     | resF hp hg h =>
-      exact Or.inl (Or.inr ⟨_, ⟨crel_calcsAt hb c (just_bnd hb ht) hp, c.good_finished hg⟩, Or.inr h⟩)
+      have hm := crel_calcsAt hb c (just_bnd hb ht) hp
+      have hpb := calcsAtF_bnd hb _ n (hb.cd t (just_bnd hb ht)) _ hm
+      exact Or.inl (Or.inr ⟨_, hm, Or.inr ((c.ds_resAt hb hpb hg).2.2 _ h)⟩)
 
 theorem hyp_of {inp : RunInput} {n : Nat} (hb : BoundedP inp n) {s : Sys} (c : Ctx inp s) (lm : LM inp n s) :
-    Hyp inp (Just inp n (trace inp s)) (fun p => (stOf s p).good = true) s := by
-  refine ⟨fun _ h => h, jclosed hb c, ?_⟩
+    Hyp inp (Just inp n (trace inp s)) (Ds inp s) s := by
+  refine ⟨knowsD_ds inp s, jclosed hb c, ?_⟩
   intro t nd d ds _ hn hpc hnone
   have hnj := lm.sj.all t nd hn
   have hrun : stOf s t = .run := by
@@ -61,20 +67,21 @@ theorem hyp_of {inp : RunInput} {n : Nat} (hb : BoundedP inp n) {s : Sys} (c : C
   simp only [Bool.and_eq_true, Bool.not_eq_true', List.contains_eq_mem, decide_eq_true_eq]
   exact ⟨⟨c.status_mention (by rw [hrun]; simp), c.run_noTerminal hrun⟩, lm.rf t hrun⟩
 
-theorem CRel.mono {inp : RunInput} {G G' : Name → Prop} (hG : ∀ p, G p → G' p) {n c : Name}
+theorem CRel.mono {inp : RunInput} {G G' : Name → CalcRes → Prop} (hG : ∀ p r, G p r → G' p r) {n c : Name}
     (h : CRel inp G n c) : CRel inp G' n c := by
   induction h with
   | base hc => exact .base hc
-  | res _ hg hx ih => exact .res ih (hG _ hg) hx
+  | res _ hg hx ih => exact .res ih (hG _ _ hg) hx
 
-theorem TRel.mono {inp : RunInput} {G G' : Name → Prop} (hG : ∀ p, G p → G' p) {n d : Name}
+theorem TRel.mono {inp : RunInput} {G G' : Name → CalcRes → Prop} (hG : ∀ p r, G p r → G' p r) {n d : Name}
     (h : TRel inp G n d) : TRel inp G' n d := by
   cases h with
   | task h => exact .task h
-  | resT hp hg h => exact .resT (hp.mono hG) (hG _ hg) h
-  | resF hp hg h => exact .resF (hp.mono hG) (hG _ hg) h
+  | resT hp hg h => exact .resT (hp.mono hG) (hG _ _ hg) h
+  | resF hp hg h => exact .resF (hp.mono hG) (hG _ _ hg) h
 
-theorem SJ.mono {inp : RunInput} {J J' G G' : Name → Prop} {s : Sys} (hJ : ∀ x, J x → J' x) (hG : ∀ p, G p → G' p)
+theorem SJ.mono {inp : RunInput} {J J' : Name → Prop} {G G' : Name → CalcRes → Prop} {s : Sys}
+    (hJ : ∀ x, J x → J' x) (hG : ∀ p r, G p r → G' p r)
     (h : SJ inp J G s) : SJ inp J' G' s := by
   refine ⟨?_, fun t ht => hJ t (h.tr t ht)⟩
   intro k y hk
@@ -104,8 +111,8 @@ theorem init_lm (inp : RunInput) (nT : Nat) : LM inp nT (init inp) := by
   intro a ha; simp [stOf, init] at ha
 
 /-- one transition: `hsj` is the structural step of `Proofs/C11JustStep.lean` -/
-theorem lm_step {inp : RunInput} [NoFailDeliver inp] {n : Nat} (hb : BoundedP inp n) {s s' : Sys} (c : Ctx inp s) (lm : LM inp n s)
-    (sh : Shape inp s s')
+theorem lm_step {inp : RunInput} {n : Nat} (hb : BoundedP inp n) {s s' : Sys} (c : Ctx inp s) (c' : Ctx inp s')
+    (lm : LM inp n s) (sh : Shape inp s s')
     (hsj : ∀ J G, Hyp inp J G s → SJ inp J G s → SJ inp J G s') : LM inp n s' := by
   obtain ⟨⟨new, hev, hT⟩, gm, rf⟩ := stepInfo c n sh
   refine ⟨?_, rf lm.rf⟩
@@ -113,13 +120,13 @@ theorem lm_step {inp : RunInput} [NoFailDeliver inp] {n : Nat} (hb : BoundedP in
   refine h1.mono ?_ gm
   intro x hx
   rw [trace_append hev]
-  refine hx.mono (obsOf inp new) ?_
+  refine hx.mono (obsOf inp new) (resLe_step c' hev) ?_
   intro t d hd hok
   refine setupOK_stable hok _ ?_
   rintro ⟨e, he, ht⟩
   exact hT t d hd (setupOK_getStatus hok) ⟨e, (mem_obsOf.mp he).1, ht⟩
 
-theorem reach_lm {inp : RunInput} [NoFailDeliver inp] {n : Nat} (hb : BoundedP inp n) (hser : inp.runner = .serial) {s : Sys}
+theorem reach_lm {inp : RunInput} {n : Nat} (hb : BoundedP inp n) (hser : inp.runner = .serial) {s : Sys}
     (h : Reach inp s) : LM inp n s := by
   induction h with
   | init => exact init_lm inp n
@@ -127,17 +134,19 @@ theorem reach_lm {inp : RunInput} [NoFailDeliver inp] {n : Nat} (hb : BoundedP i
     cases c with
     | main perm =>
       have cx := reach_ctx hser hr
-      exact lm_step hb cx ih (serialStep_shape cx.h2 cx.h3 hs) (fun J G hy h => serialStep_sj hy h hs)
+      exact lm_step hb cx (reach_ctx hser (Reach.next hr hs)) ih (serialStep_shape cx.h2 cx.h3 hs)
+        (fun J G hy h => serialStep_sj hy h hs)
     | take w => cases hs
     | done w => cases hs
 
-theorem preach_lm {inp : RunInput} [NoFailDeliver inp] {n : Nat} (hb : BoundedP inp n) (hpar : inp.runner ≠ .serial) {s : Sys}
+theorem preach_lm {inp : RunInput} {n : Nat} (hb : BoundedP inp n) (hpar : inp.runner ≠ .serial) {s : Sys}
     (h : PReach inp s) : LM inp n s := by
   induction h with
   | init => exact init_lm inp n
   | @next s0 s1 c hr hs ih =>
     have cx := preach_ctx hpar hr
-    exact lm_step hb cx ih (pstep_shape cx.h2 cx.h3 hs) (fun J G hy h => pstep_sj hy h hs)
+    exact lm_step hb cx (preach_ctx hpar (PReach.next hr hs)) ih (pstep_shape cx.h2 cx.h3 hs)
+      (fun J G hy h => pstep_sj hy h hs)
 
 /-- the monitor from the invariant -/
 theorem monLazy_of_lm {inp : RunInput} {n : Nat} (hb : BoundedP inp n) {s : Sys} (c : Ctx inp s) (lm : LM inp n s) :
